@@ -53,7 +53,7 @@ def foreign_leaves(node, op, instance, cache):
     for n in walk(node):
         if n.kind == 'input' and n.op != op:
             bad.append(n)
-        elif n.kind == 'param' and n.owner is not None and n.owner != instance:
+        elif n.kind in ('param', 'kwargs') and n.owner is not None and n.owner != instance:
             bad.append(n)
     cache[key] = bad
     return bad
@@ -111,11 +111,12 @@ def check_class(model, ci, res, stats, partner=None):
                 continue
             key, at = channel(b, op, bad)
             what = sorted({('%s of %s' % (l.val, b.ops[l.op]['kind'])) if l.kind == 'input' else
-                           ('parameter %s of the other instance' % l.val) for l in bad})[:3]
+                           ('parameter %s of the other instance' % l.val if l.kind == 'param' else
+                            'the constructor keywords of the other instance') for l in bad})[:3]
             cls_here = objn.val.cls
             rm = cls_here.find_method('_run')
             loc = loc_text(key)
-            detail = "field '%s' depends on another operation through %s" % (name, loc)
+            detail = "%s: returned fields depend on another operation through %s" % (cls_here.name, loc)
             if partner is not None:
                 detail += ' (after %s)' % cj.name if objn is i1 else ' (after %s)' % ci.name
             res.add(Finding(PROP, 'C06.history', rm.module.relpath, rm.qualname, detail,
